@@ -6,6 +6,7 @@ CONSTANTS
   MaxPend = 3
   Horizon = 4
   HeadCheck = TRUE
+  PlainBase = 10
   MaxHold = 0
   CritOn = FALSE
   ExportOn = TRUE
